@@ -74,6 +74,33 @@ class SimFalsyError(SimError):
         return (SimFalsyError, (self.label, self.cls, self.retry_after))
 
 
+class SimRuntimeError(SimError, RuntimeError):
+    """An operation failure that is a RuntimeError (library code sometimes treats RuntimeError as 'my own problem')."""
+
+    def __reduce__(self):
+        return (SimRuntimeError, (self.label, self.cls, self.retry_after))
+
+
+class SimOSError(SimError, OSError):
+    def __reduce__(self):
+        return (SimOSError, (self.label, self.cls, self.retry_after))
+
+
+class SimHostileStatusError(Exception):
+    """An SDK-style error whose `status` property parses a malformed status line and raises (not AttributeError);
+    it carries no usable class information: any classifier that survives says UNKNOWN."""
+
+    def __init__(self, label):
+        super().__init__(label)
+        self.label = label
+        self.cls = "UNKNOWN"
+        self.retry_after = None
+
+    @property
+    def status(self):
+        return int("HTTP/1.1 5o3".split(" ")[1])
+
+
 class SimFrozenError(SimError):
     """An operation failure whose type rejects attribute assignment (frozen-dataclass exceptions do);
     the interpreter's own bookkeeping (__traceback__, __context__, __cause__) bypasses __setattr__."""
@@ -150,7 +177,26 @@ class CustomHookError(HookFault):
     pass
 
 
+class AppError(Exception):
+    """An application's own exception root."""
+
+
+class HybridCancelled(asyncio.CancelledError, AppError):
+    """application-level 'request cancelled': a CancelledError that is also an Exception"""
+
+
+class HybridInterrupt(KeyboardInterrupt, AppError):
+    pass
+
+
+class HybridExit(SystemExit, AppError):
+    pass
+
+
 FAULT_EXC = {
+    "HybridCancelled": HybridCancelled,
+    "HybridInterrupt": HybridInterrupt,
+    "HybridExit": HybridExit,
     "Exception": Exception,
     "ValueError": ValueError,
     "RuntimeError": RuntimeError,
@@ -172,6 +218,9 @@ FAULT_EXC = {
         "MemoryError", "RecursionError", "StopAsyncIteration", "LookupError", "ArithmeticError", "BufferError", "ReferenceError",
         "SystemError", "ConnectionError", "PermissionError", "Warning")},
 }
+
+
+from redress import AbortRetry as AbortRetryAlias  # noqa: E402  (documented alias of AbortRetryError)
 
 
 def make_fault_exc(name: str):
@@ -221,7 +270,11 @@ class RecBudget(Budget):
 
     def consume(self, cost: int = 1) -> bool:
         ok = super().consume(cost)
-        self._env.ev("BUDGET", cost=cost, granted=ok)
+        if getattr(self._env, "_ext_consumer", False):
+            # another consumer sharing this budget (modelled at an instant the scenario picked)
+            self._env.ev("BUDGET", cost=cost, granted=ok, ext=True)
+        else:
+            self._env.ev("BUDGET", cost=cost, granted=ok)
         return ok
 
 
@@ -254,12 +307,21 @@ class RecBreaker(CircuitBreaker):
         return r
 
 
-class SpyBreaker:
-    """Pure spy with the breaker interface: always admits, never changes state."""
+class GateRecBreaker(RecBreaker):
+    """A breaker subclass with a truth value: "is traffic flowing?" -- falsy whenever it is not CLOSED."""
 
-    def __init__(self, env):
+    def __bool__(self):
+        return self._state is CircuitState.CLOSED
+
+
+class SpyBreaker:
+    """Pure spy with the breaker interface: admits (except at the scripted admission indices), never changes state."""
+
+    def __init__(self, env, reject=()):
         self._env = env
         self._state = CircuitState.CLOSED
+        self._reject = set(reject)
+        self._n_allow = 0
 
     @property
     def state(self):
@@ -268,6 +330,11 @@ class SpyBreaker:
     def allow(self):
         from redress.circuit import _BreakerDecision
 
+        i = self._n_allow
+        self._n_allow += 1
+        if i in self._reject:
+            self._env.ev("BREAKER", m="allow", ret=False, bev="circuit_rejected", state="open")
+            return _BreakerDecision(False, CircuitState.OPEN, "circuit_rejected")
         self._env.ev("BREAKER", m="allow", ret=True, bev=None, state=self._state.value)
         return _BreakerDecision(True, self._state, None)
 
@@ -292,6 +359,21 @@ class FalsySpyBreaker(SpyBreaker):
 
 
 # ---------------------------------------------------------------------------
+class _SizedStrategy:
+    def __init__(self, fn):
+        self._fn = fn
+        self.__name__ = getattr(fn, "__name__", "strategy")
+        for n in ("record_failure", "record_success"):
+            if hasattr(fn, n):
+                setattr(self, n, getattr(fn, n))
+
+    def __call__(self, ctx):
+        return self._fn(ctx)
+
+    def __len__(self):
+        return 0
+
+
 class CallState:
     """Per-call script position and counters."""
 
@@ -491,7 +573,8 @@ class Env:
                 e = prev          # the operation re-raises a cached exception object (e.g. Future.result() of a failed future)
             else:
                 etype = (SimTimeoutError if step.get("timeout_type") else SimFalsyError if step.get("falsy")
-                         else SimFrozenError if step.get("frozen") else SimError)
+                         else SimFrozenError if step.get("frozen") else SimRuntimeError if step.get("rt")
+                         else SimOSError if step.get("oserr") else SimError)
                 e = etype("E" + lab, step["cls"], step.get("ra"))
                 if step.get("status_cls"):
                     # what redress.default_classifier (no-retry policies) makes of it differs from what the
@@ -509,8 +592,13 @@ class Env:
                 except CircuitOpenError:
                     _raise_here(e)
             _raise_here(e)
+        if kind == "hostile_status":
+            e = SimHostileStatusError("E" + lab)
+            cs.objects[e.label] = e
+            self.ev("OP_END", k=k, kind="exc", cls="UNKNOWN", obj=e.label, ra=None, etype=type(e).__name__, dcls="UNKNOWN")
+            _raise_here(e)
         if kind == "abort":
-            e = AbortRetryError("A" + lab)
+            e = (AbortRetryAlias if step.get("alias") else AbortRetryError)("A" + lab)
             cs.objects["A" + lab] = e
             self.fired("op_abort")
             self.ev("OP_END", k=k, kind="abort", obj="A" + lab)
@@ -648,6 +736,9 @@ class Env:
                 env.ev("STRAT_FB", which=which, what="success")
             strategy.record_failure = record_failure
             strategy.record_success = record_success
+        if self.cfg.get("strat_shape") == "sized" and style != "legacy":
+            # a strategy *object* that is also an (empty) container -- e.g. a schedule / history-backed strategy: falsy, callable
+            strategy = _SizedStrategy(strategy)
         return strategy
 
     def _strategy(self, which, style, attempt, klass, prev, remaining, cause, classification):
@@ -665,6 +756,15 @@ class Env:
         self.ev("STRATEGY", which=which, style=style, attempt=attempt,
                 cls=getattr(klass, "name", repr(klass)), prev=fnum(prev), remaining=fnum(remaining),
                 cause=cause, ra=fnum(ra), same_cls_obj=same, raw=fnum(raw), j=j)
+        ext = cs.s.get("ext_consume")
+        if ext and j in ext and getattr(self, "shared_budget", None) is not None:
+            # a concurrent consumer of the shared budget gets its turn exactly while this strategy is being evaluated
+            self._ext_consumer = True
+            try:
+                self.shared_budget.consume(1)
+            finally:
+                self._ext_consumer = False
+            self.fired("concurrent_consumer")
         f = self.fault("strategy", j)
         if f is not None:
             raise f
@@ -785,10 +885,18 @@ class Env:
         return ans
 
     # -- observability hooks -----------------------------------------------------------
+    def _hook_time(self, cs, i):
+        """a slow observability hook (blocking exporter): virtual time passes inside it, before it returns or raises"""
+        d = cs.s.get("hook_dur")
+        if d and d[i % len(d)]:
+            self.spend(d[i % len(d)])
+            self.fired("slow_hook")
+
     def on_metric(self, event, attempt, sleep_s, tags):
         cs = self.cs()
         i = cs.count("on_metric")
         self.ev("METRIC", event=event, attempt=attempt, sleep_s=fnum(sleep_s), tags=dict(tags), i=i)
+        self._hook_time(cs, i)
         f = self.fault("on_metric", i)
         if f is not None:
             raise f
@@ -797,6 +905,7 @@ class Env:
         cs = self.cs()
         i = cs.count("on_log")
         self.ev("LOG", event=event, fields={k: fnum(v) if isinstance(v, float) else v for k, v in fields.items()}, i=i)
+        self._hook_time(cs, i)
         f = self.fault("on_log", i)
         if f is not None:
             raise f
